@@ -194,7 +194,12 @@ def run(pid, tier, replay_file=None):
         payload = json.load(open(replay_file))
         states, info = [payload["state"]], {"replay": replay_file}
     else:
-        states, info = df.stage1(tier)
+        states, info = df.stage1(tier, pid="ser")
+        if tier == "thorough" and len(states) > 40000:      # relational adjudication is the bottleneck
+            stride = (len(states) + 39999) // 40000
+            states = [x for x in states if x.get("size", 9) <= 2] + \
+                     [x for x in states if x.get("size", 9) > 2][::stride]
+            info["replayed_stride"] = stride
     common.use_repo()
     observations = drive.pmap(replay_ser, states, chunksize=16)
 
